@@ -58,6 +58,8 @@ type Options struct {
 	// Disconnect, if set, serves p2p.Disconnect after the mock has delivered the Disconnected
 	// notification to the topology (libp2p notifies the topology from inside Disconnect too).
 	Disconnect func(overlay boson.Address, reason string) error
+	// Broadcast, if set, serves discovery.BroadcastPeers (gossip); default: recorded, never fails.
+	Broadcast func(ctx context.Context, addressee boson.Address, peers ...boson.Address) error
 	// Bootnodes to dial when no peer is connected (manage loop).
 	Bootnodes []ma.Multiaddr
 }
@@ -143,7 +145,11 @@ func New(t testing.TB, o Options) *Rig {
 	}
 	r := &Rig{Base: boson.NewAddress(o.Base), signer: sharedSigner, db: db, store: st, opts: o, under: map[string]ma.Multiaddr{}}
 	r.AB = addressbook.New(st)
-	r.Disc = discmock.NewDiscovery()
+	if o.Broadcast != nil {
+		r.Disc = discmock.NewDiscovery(discmock.WithBroadcastPeers(o.Broadcast))
+	} else {
+		r.Disc = discmock.NewDiscovery()
+	}
 	r.P2P = p2pmock.New(
 		p2pmock.WithConnectFunc(func(ctx context.Context, addr ma.Multiaddr) (*p2p.Peer, error) {
 			if o.Connect != nil {
@@ -191,11 +197,14 @@ func (r *Rig) Close(t testing.TB) error {
 	if r.opts.Start {
 		err = r.Kad.Close()
 	}
+	if err != nil {
+		return err // goroutines of the Kad may still be running: leave its stores open
+	}
 	if r.opts.Start || r.opts.FreshStores {
 		_ = r.db.Close()
 		_ = r.store.Close()
 	}
-	return err
+	return nil
 }
 
 // StartLoop starts the manage loop of a rig that was built with FreshStores and without Start.
